@@ -296,6 +296,12 @@ def run(tier: str, seed: int) -> CheckResult:
         params = dict(sc.params)
         params['user'] = [(1.0, 'createhandled', 'a')] + [u for u in params['user'] if u[1] != 'create']
         hist.append(C05Scenario(**params))
+    # the operator also serves another kind, whose handlers are narrowed to fields in the status / metadata: what is essential for
+    # THAT kind (its handlers' fields) says nothing about this one - a status-only edit here stays a no-op
+    other = [dict(id='w1', on='update', field='status'), dict(id='w2', on='field', field='metadata.finalizers')]
+    for h in histories(2, False):
+        if any(a[0] in ('status', 'addfin', 'delfin') for a in h):
+            hist.append(build(h, False, 6.0, False, other_kind_handlers=other, delays=False, early_user=False, time_dev=False))
     timing = [build(h, bare, 2.0, pre, kills=True) for bare in (True, False) for pre in (False, True) for h in histories(1 if tier == 'quick' else 2, bare)]
     if tier == 'quick':
         groups = [('histories', hist, 0, 60.0), ('timing+kills', timing, 1, 40.0)]
